@@ -4,7 +4,7 @@
    halves of exactness (a pending piece has its bit clear; a valid piece whose bit is clear is
    pending). *)
 From Coq Require Import List NArith Bool Arith Lia.
-From LTV.C09 Require Import ParamsGen Model ProofsA ProofsB ProofsD.
+From LTV.C09 Require Import ParamsGen Model Proofs ProofsA ProofsB ProofsD.
 Import ListNotations.
 
 Lemma st_ext (a b : st) :
@@ -219,12 +219,15 @@ Proof.
 Qed.
 
 
-Lemma throttle_pos k : throttle pl k = true -> k <> 0.
+Transparent throttle.
+Lemma throttle_pos k : throttle k = true -> k <> 0.
 Proof.
   intros Ht Hk. subst. unfold throttle in Ht.
-  apply andb_true_iff in Ht. destruct Ht as [Ht _]. apply N.ltb_lt in Ht.
-  change (N.of_nat 0) with 0%N in Ht. lia.
+  apply andb_true_iff in Ht. destruct Ht as [_ Ht]. apply N.leb_le in Ht.
+  change (N.of_nat 0) with 0%N in Ht.
+  pose proof Proofs.params_ok_now as Hp. unfold Proofs.params_ok in Hp. apply N.ltb_lt in Hp. lia.
 Qed.
+Opaque throttle.
 
 Definition meas (s : st) : nat := length (s_nodes s) - s_pos s + length (s_hq s).
 
@@ -294,7 +297,7 @@ Proof.
   destruct (Nat.leb_spec (length (s_nodes s)) (s_pos s)) as [Hge|Hlt].
   { eapply queue_tail_post; eauto. lia. }
   unfold out_val. rewrite Ho.
-  destruct (throttle pl k) eqn:Hth.
+  destruct (throttle k) eqn:Hth.
   { apply qp_intro; auto.
     - right. split; [eauto | lia].
     - intros _ _ Hh. apply throttle_pos in Hth. rewrite Hh in Ok. simpl in Ok. congruence. }
